@@ -24,5 +24,5 @@ pub fn panic_text(p: &(dyn std::any::Any + Send)) -> String {
 }
 
 pub fn silence_panics() {
-    std::panic::set_hook(Box::new(|_| {}));
+    vcore::quiet_panics();
 }
